@@ -28,8 +28,8 @@ CHECKS = {
    "SQLite only; value conversion on type changes is not judged."),
  "C06": ("model_checking",
    "explicit-state BFS over directory-writer histories with canonical-state dedup (invariant: Validate==nil) plus exhaustive single-edit tamper neighbourhood of every small reached state, judged by a reference materiality model",
-   "BFS to depth 3 (thorough 4) over the real writers (WritePlan x 6 formatters, WriteCheckpoint, CopyFiles; MemDir and LocalDir) checks that every reachable directory validates; for every small reached state and 8 hand-built ones (sum-ignored files, awkward names) every single edit - each byte of each file and of atlas.sum substituted/deleted/inserted, file add/remove/rename/swap/move-tail, sum line operations - is applied and the real Validate must fail with a checksum error exactly when the reference model says the edit is material.",
-   "CLI writers (migrate new/hash/import/diff) are covered by the CLI-driven checks; bodies of sum-ignored files and whitespace-only sum edits are immaterial by design and not judged."),
+   "BFS to depth 3 (thorough 4) over the real writers (WritePlan x 6 formatters, WriteCheckpoint, CopyFiles; MemDir and LocalDir) checks that every reachable directory validates; for every small reached state and 8 hand-built ones (sum-ignored files, awkward names) every single edit - each byte of each file and of atlas.sum substituted/deleted/inserted, file add/remove/rename/swap/move-tail, sum line operations - is applied and the real Validate must fail with a checksum error exactly when the reference model says the edit is material. A BFS to depth 3 (thorough 4) over CLI histories {migrate new, migrate diff x 2 desired schemas, migrate hash, 5 hand edits} on a real directory (clock seam VERIF_NOW) checks that writer commands refuse and leave untouched a directory whose sum does not match, leave a valid directory otherwise, and that `migrate validate` / `migrate apply` accept the directory exactly when it was not edited since atlas last wrote or re-hashed it, in agreement with migrate.Validate(LocalDir).",
+   "`migrate import` is not driven; third-party directory formats are covered in process only (their file names come from the wall clock); bodies of sum-ignored files and whitespace-only sum edits are immaterial by design and not judged."),
  "C07": ("exploration",
    "bounded-exhaustive enumeration of adversarial strings x slots x change kinds x formatters x indents x delimiters; each plan of the real planners is formatted, read back with the matching reader and dialect scanner and compared with the planned statements",
    "Plans of the real MySQL/PostgreSQL/SQLite planners over a two-table schema in which one slot (thorough: every pair of slots) of 11 holds each of 22 adversarial strings (quotes, comment markers, delimiters, LF, CR LF, CR, ...), for create/drop/alter/alter-back change sets x 6 formatters x 2 indents x 4 plan delimiters (atlas format): the statements read back with the matching directory reader and the dialect's scanner must equal Plan.Changes[].Cmd in count, order and text, and no text of a comment line may reach a statement.",
